@@ -314,7 +314,7 @@ var propStreams = map[string][]string{
 	"C06": {"BUILDER", "BHIST"},
 	"C07": {"BUILDER"},
 	"C08": {"SPARSE"},
-	"C09": {"COMPACT"},
+	"C09": {"COMPACT", "CHIST"},
 	"C10": {"SHARE", "COMPACT", "SPARSE"},
 	"C11": {"COMPACT"},
 	"C12": {"BUILDER", "COMPACT", "CHIST"},
